@@ -187,6 +187,16 @@ def h_setitem(ctx, shape, indices, D, P, rhs):
                 for d in range(D):
                     for p in range(P):
                         exp[d, p][idx] = W[d, p]
+            elif rhs == 'own-nominal-view':
+                # the "freeze" idiom: the constant is a VIEW of the object's own nominal values that
+                # overlaps the target, x[idx] = x.data[0, 0][idx]
+                if len(tshape) == 0:
+                    continue
+                x[idx] = x.data[0, 0][idx]
+                for p in range(P):
+                    exp[0, p][idx] = X[0, 0][idx]
+                    for d in range(1, D):
+                        exp[d, p][idx] = 0
             elif rhs == 'ndarray':
                 if len(tshape) == 0:
                     continue
@@ -375,7 +385,7 @@ def units(tier, seed):
         for b in range(0, len(idxs), 10):
             batch = idxs[b:b + 10]
             add('getitem/%s/batch%d' % (shp, b // 10), 'h_getitem', shape=shp, indices=batch, D=D, P=P)
-        for rhs in ('utpm', 'utpm-broadcast', 'ndarray', 'scalar'):
+        for rhs in ('utpm', 'utpm-broadcast', 'ndarray', 'scalar', 'own-nominal-view'):
             for b in range(0, len(idxs), 25):
                 batch = idxs[b:b + 25][:: (1 if tier != 'quick' else 2)]
                 add('setitem/%s/%s/batch%d' % (shp, rhs, b // 25), 'h_setitem', shape=shp, indices=batch, D=D, P=P, rhs=rhs)
